@@ -201,6 +201,7 @@ func runC12(c *Check) {
 	ruleGobTypes(c, p)
 	ruleVerifierBoundBeforeValidation(c, p)
 	ruleSubmessagePresence(c, p)
+	ruleDecodersOverwrite(c, p)
 }
 
 // ruleVerifierBoundBeforeValidation (C12-R6): the payload provider a signed header is verified
@@ -1196,4 +1197,107 @@ func ruleSubmessagePresence(c *Check, p *Prog) {
 		}
 	}
 	c.MinInstances(rule, len(ref))
+}
+
+// ruleDecodersOverwrite (C12-R8): a decoded value is a function of the bytes alone. A decoder
+// fills a receiver that may have held another value before (a variable reused over a sequence of
+// blobs, gob decoding into a used element). Every field of the receiver that the decoder writes
+// on some accepting path is therefore written on every accepting path — set from the message or
+// reset — so nothing of the previous value survives into the decoded one.
+func ruleDecodersOverwrite(c *Check, p *Prog) {
+	rule := "C12-R8"
+	c.Doc(rule, "EO: every wire decoder writes, on every accepting path, every receiver field it writes on some accepting path (a field absent from the message is reset, not left as it was): decoding into a used value yields the encoded value, not a mix with the previous one.")
+	n := 0
+	presence := submessagePresence(p)
+	for _, wp := range wirePairs {
+		fn := p.Func(typesM(wp.goT, "FromProto"))
+		if fn == nil || fn.Blocks == nil || len(fn.Params) == 0 {
+			continue
+		}
+		g := BuildECFG(p, fn, ExpandOpts{MaxDepth: 0})
+		c.NoteGraph(g)
+		recv := ssa.Value(fn.Params[0])
+		// the top-level receiver field an address or value is rooted at
+		var rootField func(v ssa.Value, d int) (int, bool)
+		rootField = func(v ssa.Value, d int) (int, bool) {
+			if d > 8 {
+				return 0, false
+			}
+			switch x := v.(type) {
+			case *ssa.FieldAddr:
+				if x.X == recv {
+					return x.Field, true
+				}
+				return rootField(x.X, d+1)
+			case *ssa.IndexAddr:
+				return rootField(x.X, d+1)
+			case *ssa.UnOp:
+				if x.Op == token.MUL {
+					return rootField(x.X, d+1)
+				}
+			case *ssa.Slice:
+				return rootField(x.X, d+1)
+			case *ssa.ChangeType:
+				return rootField(x.X, d+1)
+			}
+			return 0, false
+		}
+		writes := map[int][]*Node{}
+		for _, nd := range g.Nodes {
+			if nd.Kind != NInstr || nd.In == nil || !g.Live()[nd] {
+				continue
+			}
+			switch x := nd.In.(type) {
+			case *ssa.Store:
+				if f, ok := rootField(x.Addr, 0); ok {
+					writes[f] = append(writes[f], nd)
+				}
+			case *ssa.Call:
+				// a nested decoder filling the field in place (its own completeness is its own obligation)
+				for _, a := range x.Common().Args {
+					if f, ok := rootField(a, 0); ok {
+						if _, isPtr := a.Type().Underlying().(*types.Pointer); isPtr {
+							writes[f] = append(writes[f], nd)
+						}
+					}
+				}
+			}
+		}
+		st := derefStruct(recv.Type())
+		if st == nil {
+			continue
+		}
+		// a sub-message the encoder always emits is absent only from foreign bytes: such a value
+		// was not encoded from anything, and it still re-encodes and decodes to itself
+		always := map[string]bool{}
+		for _, pe := range presence {
+			if pe.Encoder == wp.goT+".ToProto" && pe.Presence == "always" {
+				always[pe.Field] = true
+			}
+		}
+		foreignOnly := g.Select(EdgeWhere(func(t *Term, pol bool, nd *Node) bool {
+			t, pol = normFact(t, pol)
+			if t.Op != "bin" || len(t.Args) != 2 || t.Args[1].Name != "nil" || (t.Name != "==" && t.Name != "!=") {
+				return false
+			}
+			isNil := (t.Name == "==") == pol
+			a := t.Args[0]
+			return isNil && a.Op == "field" && always[a.Name] && len(a.Args) == 1 && a.Args[0].Op == "param"
+		}))
+		var idxs []int
+		for f := range writes {
+			idxs = append(idxs, f)
+		}
+		sort.Ints(idxs)
+		for _, f := range idxs {
+			n++
+			inst := wp.goT + ".FromProto ⟂ " + fieldLabel(recv.Type(), f) + " written on every accepting path"
+			c.Decide(rule, inst, fnName(fn), p.InstrPos(writes[f][0].In), "the field is set or reset on every accepting path",
+				"an accepting path of the decoder leaves this field as the receiver held it before: decoding a message without it into a used value yields a mix of the two values (other hash, other bytes when re-encoded, signature no longer valid)",
+				g, g.PathAvoiding([]*Node{g.Entry}, g.SuccessExits(), orPred(nodeSet(writes[f]), nodeSet(foreignOnly))))
+		}
+	}
+	if n < 20 {
+		c.Unk(rule, "anchor-count", "", "", fmt.Sprintf("anchor lost: only %d receiver fields written by the wire decoders", n))
+	}
 }
